@@ -4,18 +4,25 @@
 EXTENDS Integers, Sequences, FiniteSets, TLC, Json
 CONSTANTS NStarts
 VARIABLES disk, mem, pc, enabled, fresh, starts, seen, hist, init, inittmp
-I == INSTANCE Identity WITH Items <- {"ssh", "ftp", "smtp", "ldap", "agent"}, Deviations <- {}, MaxStarts <- NStarts
+AllItems == {"ssh", "ftp", "smtp", "ldap", "agent"}
+I == INSTANCE Identity WITH Items <- AllItems, Pairs <- {"ftp", "smtp", "ldap"}, Deviations <- {}, MaxStarts <- NStarts
 
 RECURSIVE SetToSeqS(_)
 SetToSeqS(S) == IF S = {} THEN <<>> ELSE LET x == CHOOSE x \in S : TRUE IN <<x>> \o SetToSeqS(S \ {x})
 Sets == { {"ssh"}, {"ftp", "smtp"}, {"ssh", "ftp", "smtp", "ldap", "agent"}, {"ldap", "agent"}, {"ssh", "ldap"} }
 Init == I!Init /\ hist = <<>> /\ init = disk.token[1] /\ inittmp = disk.tmp[1]
-Begin == \E en \in Sets : I!Start(en) /\ hist' = Append(hist, [enabled |-> en, completed |-> FALSE]) /\ UNCHANGED <<init, inittmp>>
-Work == (I!TokenStep \/ I!TokenTmp \/ I!TokenRename \/ \E i \in {"ssh", "ftp", "smtp", "ldap", "agent"} : I!ItemStep(i)) /\ UNCHANGED <<hist, init, inittmp>>
+Begin == \E en \in Sets : I!Start(en) /\ hist' = Append(hist, [enabled |-> en, completed |-> FALSE, half |-> {}]) /\ UNCHANGED <<init, inittmp>>
+\* the generator takes the items in one fixed order (the real server initialises its services in configuration order; every
+\* order is covered by the exhaustive check of MC_Identity): that keeps the number of histories small
+Order == <<"ssh", "ftp", "smtp", "ldap", "agent">>
+Pending == { k \in 1..Len(Order) : Order[k] \in enabled /\ mem.items[Order[k]] = I!Absent }
+Work == (I!TokenStep \/ I!TokenTmp \/ I!TokenRename
+         \/ (Pending # {} /\ I!ItemStep(Order[CHOOSE k \in Pending : \A j \in Pending : k <= j]))) /\ UNCHANGED <<hist, init, inittmp>>
 Complete == I!Up /\ hist' = [hist EXCEPT ![Len(hist)].completed = TRUE] /\ UNCHANGED <<init, inittmp>>
-Stop == I!Kill /\ UNCHANGED <<hist, init, inittmp>>
+\* a kill: the pairs whose key is stored but whose certificate is not are remembered (the runner reproduces exactly that state)
+Stop == I!Kill /\ hist' = [hist EXCEPT ![Len(hist)].half = { i \in enabled : disk.items[i][1] = "half" }] /\ UNCHANGED <<init, inittmp>>
 Emit == /\ pc = "down" /\ starts = NStarts /\ Len(hist) = NStarts
-        /\ PrintT(<<"SCN", ToJson([token |-> init, tmp |-> inittmp, starts |-> [k \in 1..Len(hist) |-> [enabled |-> SetToSeqS(hist[k].enabled), completed |-> hist[k].completed]]])>>)
+        /\ PrintT(<<"SCN", ToJson([token |-> init, tmp |-> inittmp, starts |-> [k \in 1..Len(hist) |-> [enabled |-> SetToSeqS(hist[k].enabled), completed |-> hist[k].completed, half |-> SetToSeqS(hist[k].half)]]])>>)
         /\ UNCHANGED <<disk, mem, pc, enabled, fresh, starts, seen, hist, init, inittmp>>
 Next == Begin \/ Work \/ Complete \/ Stop \/ Emit
 Spec == Init /\ [][Next]_<<disk, mem, pc, enabled, fresh, starts, seen, hist, init, inittmp>>
